@@ -121,6 +121,7 @@ class Engine(FsMixin, ExprMixin, StmtMixin, CallMixin, SpecMixin, BuiltinMixin, 
         self.glob_results = []
         self.seq_facts = {}     # name of a sequence constant -> [fn(k) -> z3 Bool]: element-wise facts, instantiated on access
         self.sorted_info = {}
+        self.branch_cov = {}
         self._rel_of = getattr(self, '_rel_of', {})
         self.covered_lines = set()
         self.fn_locals = set()
@@ -270,6 +271,7 @@ class Engine(FsMixin, ExprMixin, StmtMixin, CallMixin, SpecMixin, BuiltinMixin, 
         # names bound somewhere in the function: reading one before it is bound raises UnboundLocalError
         self.fn_locals = {x.id for x in ast.walk(fn) if isinstance(x, ast.Name) and isinstance(x.ctx, ast.Store)}
         self.covered_lines = set()
+        self.branch_cov = {}
         self.merging = c.get("merge", True)
         self.effect_guards = c.get("effect_guards", {})
         self.current_key = key
@@ -346,6 +348,15 @@ class Engine(FsMixin, ExprMixin, StmtMixin, CallMixin, SpecMixin, BuiltinMixin, 
             src_lines = []
         report["unreached"] = [dict(line=l, text=(src_lines[l - 1].strip() if 0 < l <= len(src_lines) else "")) for l in unreached]
         report["unreached"] = [u for u in report["unreached"] if u["text"] not in allowed]
+        # `if` tests with a side that is never feasible (the test is constant under the contract): same vacuity guard
+        for l, (ft, ff) in sorted(self.branch_cov.items()):
+            if ft and ff:
+                continue
+            txt = src_lines[l - 1].strip() if 0 < l <= len(src_lines) else ""
+            txt += "   [never true]" if not ft else "   [never false]"
+            if txt in allowed or any(u["line"] == l for u in report["unreached"]):
+                continue
+            report["unreached"].append(dict(line=l, text=txt))
         report.update(obligations=self.obligations, trivial=list(self.trivial), undecided=list(self.undecided_paths), outcomes=kinds,
                       paths=len(outs), stmts=self.nstmts, awaits=self.nawaits, dropped=sorted(self.dropped),
                       symexec_s=time.time() - t0)
